@@ -60,6 +60,11 @@ func TestVerifServerACDeps(t *testing.T) {
 		nref := sh.files + sh.dirs*(1+sh.rootFiles+sh.children*sh.childFiles) + b2n(sh.stdout) + b2n(sh.stderr)
 		subsets := 1 << uint(nref)
 		maxSub := vScale(16, 256)
+		type vSel struct {
+			mask, mismatch int
+			twin           bool
+		}
+		var sels []vSel
 		for sub := 0; sub < subsets && sub < maxSub; sub++ {
 			mask := sub
 			if subsets > maxSub && sub > 0 {
@@ -69,6 +74,16 @@ func TestVerifServerACDeps(t *testing.T) {
 			if rng.Pct(15) && nref > 0 {
 				mismatch = rng.Intn(nref)
 			}
+			// half of the mis-sized references repeat the hash of an earlier, correctly sized reference
+			// of the same result (same hash, two sizes: only one of the two digests can exist)
+			sels = append(sels, vSel{mask, mismatch, mismatch >= 0 && rng.Pct(50)})
+		}
+		for k := 1; k < nref; k++ { // directed: everything present, reference k repeats an earlier hash with another size
+			sels = append(sels, vSel{0, k, true})
+		}
+		for _, sel := range sels {
+			mask, mismatch, twin := sel.mask, sel.mismatch, sel.twin
+			var prev *pb.Digest
 			rec.Case()
 			idx := 0
 			mismatched := false
@@ -79,6 +94,11 @@ func TestVerifServerACDeps(t *testing.T) {
 				idx++
 				d := &pb.Digest{Hash: vSha(data), SizeBytes: int64(len(data))}
 				absent := mask&(1<<uint(my)) != 0
+				if !absent && my == mismatch && !isTree && twin && prev != nil {
+					mismatched = true
+					rec.Count("mismatch.twin-of-earlier-reference")
+					return &pb.Digest{Hash: prev.Hash, SizeBytes: prev.SizeBytes + 1}
+				}
 				if !absent {
 					f.vPutBlob(t, data)
 					if my == mismatch && !isTree {
@@ -86,6 +106,9 @@ func TestVerifServerACDeps(t *testing.T) {
 						mismatched = true
 					} else {
 						present = append(present, vDG(d))
+						if !isTree {
+							prev = d
+						}
 					}
 				}
 				return d
